@@ -14,6 +14,7 @@ Section Proofs.
   Variable branch_ok : bytes -> bool.
   Variable derive_sk : bytes -> Z -> Z -> option sk.
   Variable sign : sk -> bytes -> sig.
+  Variable zfix : bool.
   Variable cfg : amcfg.
 
   (* the wallet's true secrets *)
@@ -49,20 +50,20 @@ Section Proofs.
 
   Local Notation amstate := (amstate sk).
   Local Notation check_password := (check_password kdf digest shash sk cfg).
-  Local Notation safely_check := (safely_check kdf digest shash sk cfg).
+  Local Notation safely_check := (safely_check kdf digest shash sk zfix cfg).
   Local Notation get_priv := (get_priv open_box sk branch_ok derive_sk cfg).
   Local Notation sign_btcec := (sign_btcec kdf digest shash open_box sk sig branch_ok derive_sk sign cfg).
   Local Notation get_mnemonic := (get_mnemonic kdf digest shash open_box sk cfg).
-  Local Notation step := (step kdf digest shash open_box sk sig branch_ok derive_sk sign cfg).
-  Local Notation step_st := (step_st kdf digest shash open_box sk sig branch_ok derive_sk sign cfg).
-  Local Notation step_out := (step_out kdf digest shash open_box sk sig branch_ok derive_sk sign cfg).
-  Local Notation step_uses := (step_uses kdf digest shash open_box sk sig branch_ok derive_sk sign cfg).
-  Local Notation run := (run kdf digest shash open_box sk sig branch_ok derive_sk sign cfg).
-  Local Notation reachable := (reachable kdf digest shash open_box sk sig branch_ok derive_sk sign cfg).
-  Local Notation wstep := (wstep kdf digest shash open_box sk sig branch_ok derive_sk sign cfg).
-  Local Notation wrun := (wrun kdf digest shash open_box sk sig branch_ok derive_sk sign cfg).
-  Local Notation wreachable := (wreachable kdf digest shash open_box sk sig branch_ok derive_sk sign cfg).
-  Local Notation sign_all := (sign_all kdf digest shash open_box sk sig branch_ok derive_sk sign cfg).
+  Local Notation step := (step kdf digest shash open_box sk sig branch_ok derive_sk sign zfix cfg).
+  Local Notation step_st := (step_st kdf digest shash open_box sk sig branch_ok derive_sk sign zfix cfg).
+  Local Notation step_out := (step_out kdf digest shash open_box sk sig branch_ok derive_sk sign zfix cfg).
+  Local Notation step_uses := (step_uses kdf digest shash open_box sk sig branch_ok derive_sk sign zfix cfg).
+  Local Notation run := (run kdf digest shash open_box sk sig branch_ok derive_sk sign zfix cfg).
+  Local Notation reachable := (reachable kdf digest shash open_box sk sig branch_ok derive_sk sign zfix cfg).
+  Local Notation wstep := (wstep kdf digest shash open_box sk sig branch_ok derive_sk sign zfix cfg).
+  Local Notation wrun := (wrun kdf digest shash open_box sk sig branch_ok derive_sk sign zfix cfg).
+  Local Notation wreachable := (wreachable kdf digest shash open_box sk sig branch_ok derive_sk sign zfix cfg).
+  Local Notation sign_all := (sign_all kdf digest shash open_box sk sig branch_ok derive_sk sign zfix cfg).
 
   (* ---------------------------------------------------------------- the invariant *)
   Definition cache_ok (l : list (addr * sk)) : Prop :=
@@ -72,7 +73,7 @@ Section Proofs.
     cache_ok (s_cached st) /\
     if s_unlocked st
     then s_hashed st = shash (c_run_salt cfg ++ right) /\
-         (s_mk st = good \/ s_mk st = zero32) /\ s_branch st = Some acct
+         (s_mk st = good \/ (zfix = false /\ s_mk st = zero32)) /\ s_branch st = Some acct
     else s_hashed st = zero64 /\ s_branch st = None /\ s_cached st = [].
 
   Lemma Inv_init : Inv init_state.
@@ -117,10 +118,17 @@ Section Proofs.
   Lemma Inv_set_mk_locked st k : Inv st -> s_unlocked st = false -> Inv (set_mk st k).
   Proof. intros [C H] U. split; [exact C|]. cbn. rewrite U in *. exact H. Qed.
 
-  Lemma Inv_set_mk_zero st : Inv st -> Inv (set_mk st zero32).
+  (* what safelyCheckPassword does after a successful check *)
+  Definition after_safe (st : amstate) : amstate :=
+    if zfix && s_unlocked st then st else set_mk st zero32.
+
+  Lemma Inv_after_safe st : Inv st -> Inv (after_safe st).
   Proof.
-    intros [C H]. split; [exact C|]. cbn. destruct (s_unlocked st); [|exact H].
-    destruct H as (A & _ & B). auto.
+    intros [C H]. unfold after_safe. destruct (zfix && s_unlocked st) eqn:ZU.
+    - split; [exact C|exact H].
+    - split; [exact C|]. cbn. destruct (s_unlocked st) eqn:U; [|exact H].
+      destruct H as (A & _ & B). split; [exact A|]. split; [right|exact B].
+      split; [|reflexivity]. destruct zfix; [discriminate|reflexivity].
   Qed.
 
   Lemma Inv_set_mk_good st : Inv st -> Inv (set_mk st good).
@@ -128,6 +136,13 @@ Section Proofs.
     intros [C H]. split; [exact C|]. cbn. destruct (s_unlocked st); [|exact H].
     destruct H as (A & _ & B). auto.
   Qed.
+
+  Lemma safely_right st : Inv st ->
+    safely_check st right = (None, after_safe (if s_unlocked st then st else set_mk st good)).
+  Proof. intros I. unfold Unlock.safely_check. rewrite (check_right st I). reflexivity. Qed.
+
+  Lemma Inv_safely_right st : Inv st -> Inv (after_safe (if s_unlocked st then st else set_mk st good)).
+  Proof. intros I. apply Inv_after_safe. destruct (s_unlocked st); [exact I|apply Inv_set_mk_good, I]. Qed.
 
   (* ---------------------------------------------------------------- getPrivKeyBtcec *)
   Lemma lookup_cons_ok a k l : cache_ok l -> k = sk_of a -> cache_ok ((a, k) :: l).
@@ -241,7 +256,7 @@ Section Proofs.
       unfold Unlock.export_keystore, Unlock.safely_check.
       destruct (bytes_eqb p right) eqn:E.
       + apply bytes_eqb_eq in E. subst p. rewrite (check_right st I). cbn [fst snd].
-        destruct (s_unlocked st); apply Inv_set_mk_zero; auto. apply Inv_set_mk_good. exact I.
+        apply (Inv_safely_right st I).
       + assert (Hp : p <> right) by (intros ->; rewrite bytes_eqb_refl in E; discriminate).
         rewrite (check_wrong st p I Hp). cbn [fst snd].
         destruct (s_unlocked st) eqn:U; [exact I|apply Inv_set_mk_locked; auto].
@@ -255,7 +270,7 @@ Section Proofs.
           destruct (open_box cke (c_ent_enc cfg)); exact I.
         * cbn [s_unlocked set_mk s_mk]. rewrite U.
           assert (IZ : Inv (set_mk (set_mk st good) zero32))
-            by (apply Inv_set_mk_zero, Inv_set_mk_good; exact I).
+            by (apply Inv_set_mk_locked; [apply Inv_set_mk_good; exact I|exact U]).
           destruct (open_box good (c_cent_enc cfg)) as [cke|]; [|exact IZ].
           destruct (open_box cke (c_ent_enc cfg)); exact IZ.
       + assert (Hp : p <> right) by (intros ->; rewrite bytes_eqb_refl in E; discriminate).
@@ -265,7 +280,7 @@ Section Proofs.
       unfold Unlock.safely_check.
       destruct (bytes_eqb p right) eqn:E.
       + apply bytes_eqb_eq in E. subst p. rewrite (check_right st I). cbn [fst snd].
-        destruct (s_unlocked st); apply Inv_set_mk_zero; auto. apply Inv_set_mk_good. exact I.
+        apply (Inv_safely_right st I).
       + assert (Hp : p <> right) by (intros ->; rewrite bytes_eqb_refl in E; discriminate).
         rewrite (check_wrong st p I Hp). cbn [fst snd].
         destruct (s_unlocked st) eqn:U; [exact I|apply Inv_set_mk_locked; auto].
@@ -276,7 +291,7 @@ Section Proofs.
       unfold Unlock.change_pub, Unlock.safely_check.
       destruct (bytes_eqb np right) eqn:E.
       + apply bytes_eqb_eq in E. subst np. rewrite (check_right st I). cbn [fst snd].
-        destruct (s_unlocked st); apply Inv_set_mk_zero; auto. apply Inv_set_mk_good. exact I.
+        apply (Inv_safely_right st I).
       + assert (Hp : np <> right) by (intros ->; rewrite bytes_eqb_refl in E; discriminate).
         rewrite (check_wrong st np I Hp). cbn [fst snd].
         destruct (s_unlocked st) eqn:U; [exact I|apply Inv_set_mk_locked; auto].
@@ -288,6 +303,21 @@ Section Proofs.
 
   Lemma reachable_Inv st : reachable st -> Inv st.
   Proof. intros [ops <-]. apply run_Inv, Inv_init. Qed.
+
+  Lemma sign_wrong_reachable st p a h : reachable st -> known cfg a = true -> length h = 32%nat ->
+    p <> right ->
+    exists st', step st (OSign p a h) = (OutErr EInvalidPassphrase, st', []) /\ same_but_mk st st'.
+  Proof.
+    intros R K L Hp. destruct (sign_wrong st p a h (reachable_Inv st R) (conj K L) Hp) as (st' & E & _ & Sm).
+    eauto.
+  Qed.
+
+  Lemma sign_right_reachable st a h : reachable st -> known cfg a = true -> length h = 32%nat ->
+    exists st' u, step st (OSign right a h) = (OutSig (sign (sk_of a) h), st', u) /\ s_unlocked st' = true.
+  Proof.
+    intros R K L. destruct (sign_right st a h (reachable_Inv st R) (conj K L)) as (st' & u & E & _ & U & _).
+    eauto.
+  Qed.
 
   (* ---------------------------------------------------------------- outcomes by passphrase *)
   Lemma pass_dec p : p = right \/ p <> right.
@@ -318,20 +348,23 @@ Section Proofs.
   (* the right passphrase: sign, export and check always work *)
   Lemma right_pass_export st : Inv st ->
     exists st', step st (OExport right) = (OutExport (export_of_cfg cfg), st', []) /\
-                s_unlocked st' = s_unlocked st /\ s_mk st' = zero32.
+                s_unlocked st' = s_unlocked st /\ same_but_mk st st' /\
+                (s_unlocked st = true -> s_mk st' = if zfix then s_mk st else zero32).
   Proof.
-    intros I. cbn [Unlock.step]. unfold Unlock.export_keystore, Unlock.safely_check.
-    rewrite (check_right st I). eexists. split; [reflexivity|].
-    destruct (s_unlocked st) eqn:U; cbn [s_unlocked s_mk set_mk]; rewrite ?U; split; reflexivity.
+    intros I. cbn [Unlock.step]. unfold Unlock.export_keystore. rewrite (safely_right st I).
+    eexists. split; [reflexivity|]. unfold after_safe.
+    destruct (s_unlocked st) eqn:U; cbn [s_unlocked set_mk]; rewrite ?U;
+      destruct zfix; cbn [andb s_unlocked s_mk set_mk]; rewrite ?U; repeat split; try discriminate.
   Qed.
 
   Lemma right_pass_check st : Inv st ->
     exists st', step st (OCheck right) = (OutUnit, st', []) /\
-                s_unlocked st' = s_unlocked st /\ s_mk st' = zero32.
+                s_unlocked st' = s_unlocked st /\ same_but_mk st st'.
   Proof.
-    intros I. cbn [Unlock.step]. unfold Unlock.safely_check.
-    rewrite (check_right st I). eexists. split; [reflexivity|].
-    destruct (s_unlocked st) eqn:U; cbn [s_unlocked s_mk set_mk]; rewrite ?U; split; reflexivity.
+    intros I. cbn [Unlock.step]. rewrite (safely_right st I).
+    eexists. split; [reflexivity|]. unfold after_safe.
+    destruct (s_unlocked st) eqn:U; cbn [s_unlocked set_mk]; rewrite ?U;
+      destruct zfix; cbn [andb s_unlocked s_mk set_mk]; rewrite ?U; repeat split.
   Qed.
 
   (* reveal works unless the manager is unlocked with a zeroed master key *)
@@ -341,7 +374,7 @@ Section Proofs.
     intros I G. cbn [Unlock.step]. unfold Unlock.get_mnemonic. rewrite (check_right st I).
     destruct (open_cent laws) as (cke & O1 & O2).
     destruct (s_unlocked st) eqn:U.
-    - rewrite U. destruct I as [_ HI]. rewrite U in HI. destruct HI as (_ & [Hm|Hm] & _).
+    - rewrite U. destruct I as [_ HI]. rewrite U in HI. destruct HI as (_ & [Hm|[_ Hm]] & _).
       + rewrite Hm, O1, O2. eexists. split; [reflexivity|apply same_refl].
       + exfalso. apply G. auto.
     - cbn [s_unlocked set_mk s_mk]. rewrite U, O1, O2. eexists. split; [reflexivity|].
@@ -356,22 +389,31 @@ Section Proofs.
     rewrite (zero_cent laws). reflexivity.
   Qed.
 
-  (* the state "unlocked with a zeroed master key" is reachable: sign, then export *)
-  Lemma zeroed_unlocked_reachable a h : sign_ready a h ->
-    exists st, reachable st /\ s_unlocked st = true /\ s_mk st = zero32.
+  (* with the repair that state does not exist ... *)
+  Lemma fixed_never_zeroed st : zfix = true -> Inv st -> ~ (s_unlocked st = true /\ s_mk st = zero32).
   Proof.
-    intros R.
-    destruct (sign_right init_state a h Inv_init R) as (st1 & u & E1 & I1 & U1 & _).
-    destruct (right_pass_export st1 I1) as (st2 & E2 & U2 & M2).
-    exists st2. split; [|split; [congruence|exact M2]].
-    exists [OSign right a h; OExport right]. cbn [Unlock.run]. unfold Unlock.step_st.
-    rewrite E1. cbn [fst snd]. rewrite E2. reflexivity.
+    intros Z [_ HI] [U M]. rewrite U in HI. destruct HI as (_ & [Hm|[Hz _]] & _).
+    - apply (good_nonzero laws). congruence.
+    - congruence.
   Qed.
 
-  Lemma mnemonic_gate_refuted a h : sign_ready a h ->
+  (* ... in the code as first found it is reachable: sign, then export *)
+  Lemma zeroed_unlocked_reachable a h : zfix = false -> sign_ready a h ->
+    exists st, reachable st /\ s_unlocked st = true /\ s_mk st = zero32.
+  Proof.
+    intros Z R.
+    destruct (sign_right init_state a h Inv_init R) as (st1 & u & E1 & I1 & U1 & _).
+    destruct (right_pass_export st1 I1) as (st2 & E2 & U2 & _ & M2).
+    exists st2. split; [|split; [congruence|]].
+    - exists [OSign right a h; OExport right]. cbn [Unlock.run]. unfold Unlock.step_st.
+      rewrite E1. cbn [fst snd]. rewrite E2. reflexivity.
+    - rewrite (M2 U1), Z. reflexivity.
+  Qed.
+
+  Lemma mnemonic_gate_refuted a h : zfix = false -> sign_ready a h ->
     exists st, reachable st /\ step_out st (OMnemonic right) = OutErr EDecryptFailed.
   Proof.
-    intros R. destruct (zeroed_unlocked_reachable a h R) as (st & Rs & U & M).
+    intros Z R. destruct (zeroed_unlocked_reachable a h Z R) as (st & Rs & U & M).
     exists st. split; [exact Rs|]. unfold Unlock.step_out.
     rewrite (right_pass_mnemonic_zeroed st (reachable_Inv st Rs) U M). reflexivity.
   Qed.
@@ -398,6 +440,15 @@ Section Proofs.
       + destruct (right_pass_export st I) as (st' & E & _). rewrite E. reflexivity.
       + destruct (right_pass_mnemonic st I (G right eq_refl)) as (st' & E & _). rewrite E. reflexivity.
       + destruct (right_pass_check st I) as (st' & E & _). rewrite E. reflexivity.
+  Qed.
+
+  (* the repaired code: no exception *)
+  Theorem gate_fixed st o p : zfix = true -> reachable st -> needs_secret o = Some p -> op_ready o ->
+    (is_ok (step_out st o) = true <-> p = right) /\
+    (p <> right -> step_out st o = OutErr EInvalidPassphrase).
+  Proof.
+    intros Z Rs N R. apply gate; auto. intros q _. apply fixed_never_zeroed; auto.
+    apply reachable_Inv, Rs.
   Qed.
 
   (* ---------------------------------------------------------------- refusals change nothing *)
@@ -436,7 +487,9 @@ Section Proofs.
       destruct (c_version cfg =? 0); apply same_refl.
     - cbn [Unlock.step]. unfold Unlock.change_pub, Unlock.safely_check.
       destruct (pass_dec np) as [->|Hp].
-      + rewrite (check_right st I). cbn [fst snd]. destruct (s_unlocked st); repeat split.
+      + rewrite (check_right st I). cbn [fst snd].
+        destruct (s_unlocked st) eqn:U; cbn [s_unlocked set_mk]; rewrite ?U;
+          destruct zfix; cbn [andb]; repeat split.
       + cbn [Unlock.step] in E. unfold Unlock.change_pub, Unlock.safely_check in E.
         rewrite (check_wrong st np I Hp) in E. cbn in E. discriminate.
     - cbn in E. discriminate.
@@ -499,7 +552,7 @@ Section Proofs.
     - destruct (sign_all st p ins) as [[l|e] st']; cbn [snd]; split; try exact Inv_init; reflexivity.
     - split; [apply step_Inv, I|]. unfold Unlock.step_st. cbn [Unlock.step].
       unfold Unlock.export_keystore, Unlock.safely_check, Unlock.check_password. rewrite U.
-      destruct (bytes_eqb _ _); exact U.
+      destruct (bytes_eqb _ _); cbn [fst snd s_unlocked set_mk]; rewrite ?U, ?andb_false_r; cbn [s_unlocked set_mk]; rewrite ?U; reflexivity.
     - split; [apply step_Inv, I|]. unfold Unlock.step_st. cbn [Unlock.step].
       unfold Unlock.get_mnemonic, Unlock.check_password. rewrite U.
       destruct (bytes_eqb _ _); cbn [s_unlocked set_mk]; [|exact U]. rewrite U.
@@ -507,12 +560,12 @@ Section Proofs.
       destruct (open_box cke (c_ent_enc cfg)); exact U.
     - split; [apply step_Inv, I|]. unfold Unlock.step_st. cbn [Unlock.step].
       unfold Unlock.safely_check, Unlock.check_password. rewrite U.
-      destruct (bytes_eqb _ _); exact U.
+      destruct (bytes_eqb _ _); cbn [fst snd s_unlocked set_mk]; rewrite ?U, ?andb_false_r; cbn [s_unlocked set_mk]; rewrite ?U; reflexivity.
     - split; [apply step_Inv, I|]. unfold Unlock.step_st. cbn [Unlock.step].
       unfold Unlock.change_priv. rewrite U. destruct (c_version cfg =? 0); exact U.
     - split; [apply step_Inv, I|]. unfold Unlock.step_st. cbn [Unlock.step].
       unfold Unlock.change_pub, Unlock.safely_check, Unlock.check_password. rewrite U.
-      destruct (bytes_eqb _ _); exact U.
+      destruct (bytes_eqb _ _); cbn [fst snd s_unlocked set_mk]; rewrite ?U, ?andb_false_r; cbn [s_unlocked set_mk]; rewrite ?U; reflexivity.
   Qed.
 
   Lemma wrun_locked ops : forall st, forallb (fun o => negb (is_sign_hash o)) ops = true ->
